@@ -15,7 +15,8 @@ ID = 'C13'
 RULE = ('Powertrains containing a worm mating, friction coefficient drawn on both sides of f = cos(alpha) tan(beta) '
         '(f = crit * (1 +- delta)), constant + speed/position/time dependent loads from 0.1x to 100x the stall torque '
         'of either sign, duty-cycle histories from disjoint ConstantPWM windows with zeros and sign changes, initial '
-        'duty cycles of either sign, all step sizes, histories run | run+continue | run,reset,rerun. Oracle: the '
+        'duty cycles of either sign, all step sizes, histories run | run+continue (the duty cycle optionally set by hand in '
+        'between) | run,reset,rerun. Oracle: the '
         'documented lock decisions replayed over the RECORDED values (duty cycle in force = the one recorded at the '
         'previous instant; advanced motor speed from the recorded speed and acceleration; release iff the previous '
         'motor net torque points in the commanded direction). Checked at every instant: motor speed never against '
@@ -40,12 +41,12 @@ def check(case) -> Result:
     n = 0
     both = False
     amb_total = 0
-    for tr, dts, init in SP.segments(case, traces, with_init=True):
+    for tr, dts, init, hand in SP.segments(case, traces, with_init=True, with_pwm=True):
         w_init = U.si('AngularSpeed', *init['speed'])
         if not I.complete(tr) or not I.finite_trace(tr):
             res.classes += ('incomplete-or-nonfinite-trace',)
             continue
-        held, amb = I.lock_machine(mdl, tr, dts, case['motor'].get('pwm0', 1), w_init, out)
+        held, amb = I.lock_machine(mdl, tr, dts, case['motor'].get('pwm0', 1), w_init, out, hand=hand)
         amb_total += amb
         n += tr.n
         wm, pw = tr.get(0, 'angular speed'), tr.get(0, 'pwm')
@@ -94,6 +95,9 @@ def s_case(draw, max_len=5, max_steps=40):
         case['history'] = [run1]
     elif h == 'run+continue':
         case['history'] = [run1, G.s_run(draw, mdl, max_steps=max(3, max_steps // 2))]
+        if draw(st.booleans()):
+            # the user sets the duty cycle by hand before continuing (switch off, reverse, switch on again)
+            case['history'].insert(1, {'op': 'set_pwm', 'value': draw(st.sampled_from([0, 0.0, -1, -0.5, 0.5, 1, 0]))})
     else:
         reset = {'op': 'reset', 'reinit': True}
         if draw(st.booleans()):
